@@ -178,6 +178,7 @@ Lemma inv2_join_check : forall s v c j, Inv1 s -> Inv2 s -> head_run s v -> Inv2
 Proof.
   intros s v c j I1 I2 Hr. unfold join_check, getth.
   destruct (tstate_eqb _ NOTCREATED). { apply (inv2_same s); auto. }
+  destruct (negb (th_joinable _)). { now apply inv2_ret. }
   destruct (negb _); auto.
   destruct (tstate_eqb _ DONE).
   - apply inv2_ret. ghost_neutral.
